@@ -407,14 +407,14 @@ class WSStream:
         body = bytes(message.get("body", b""))
         if self.state == ASGIWebsocketState.HANDSHAKE:
             headers = build_and_validate_headers(self.response["headers"])
-            await self.send(
-                Response(
-                    stream_id=self.stream_id,
-                    status_code=int(self.response["status"]),
-                    headers=headers,
-                )
-            )
+            status_code = int(self.response["status"])
+            # The state changes before the response is sent, data that
+            # arrives whilst it is being sent must not be answered
+            # with a second response.
             self.state = ASGIWebsocketState.RESPONSE
+            await self.send(
+                Response(stream_id=self.stream_id, status_code=status_code, headers=headers)
+            )
         if not body_suppressed:
             await self.send(Body(stream_id=self.stream_id, data=body))
         if not message.get("more_body", False):
